@@ -22,6 +22,7 @@ EXPLANATION = (
     ' (LOOKUP qualified) the head of `x.f` is looked up like any name - locals first (known finding); (DECL-ORDER annotation-before-binder) type annotations are resolved before the binders they annotate are in scope.'
     " (LOOKUP bypass) no direct read of the file's own table of globals yields a variable outside lookup(); (DECL-ORDER function-first) the binder is pushed before the value for function literals only."
     ' (DROPPED-ERROR) no Result of a resolving function is dropped or turned into a plain value; (VISIT-resolve nested split) a nested case split over a child may not ignore a child field of the variant it names.'
+    " (ISOLATION namespace-member, shared with C12) a qualified name its module lacks is undeclared; (PARENS shape tests, shared with C14) `self` and the function's own name are in scope whatever parentheses surround the literal."
 )
 UNDECIDED = "the renaming-invariance theorem itself (follows from SCOPE+LOOKUP+NAMES only together with determinism of id allocation, C16)."
 
